@@ -67,6 +67,24 @@ def mk(spec: Tuple[str, Any, Any]):
     if shape == "direct_validate":
         return (J.JSONRPCRequest.model_validate({"id": mid, "method": "tools/call", "params": params}),
                 {"jsonrpc": "2.0", "id": mid, "method": "tools/call", "params": params})
+    if shape.startswith("extra_"):
+        # members beyond the declared ones (the envelope classes allow them: a trace context, a vendor extension)
+        extras = {"traceparent": "00-4bf92f3577b34da6a3ce929d0e0e4736-00f067aa0ba902b7-01", "x-vendor": {"k": [payload, 1]}}
+        if shape == "extra_request":
+            return (J.JSONRPCRequest(id=mid, method="tools/call", params=params, **extras),
+                    dict({"jsonrpc": "2.0", "id": mid, "method": "tools/call", "params": params}, **extras))
+        if shape == "extra_notification":
+            return (J.JSONRPCNotification(method="notifications/x", params=params, **extras),
+                    dict({"jsonrpc": "2.0", "method": "notifications/x", "params": params}, **extras))
+        if shape == "extra_response":
+            return (J.JSONRPCResponse.model_validate(dict({"id": mid, "result": params}, **extras)),
+                    dict({"jsonrpc": "2.0", "id": mid, "result": params}, **extras))
+        if shape == "extra_error":
+            return (J.JSONRPCError(id=mid, error={"code": -32000, "message": str(payload)}, **extras),
+                    dict({"jsonrpc": "2.0", "id": mid, "error": {"code": -32000, "message": str(payload)}}, **extras))
+        if shape == "extra_unified":
+            return (J.JSONRPCMessage.model_validate(dict({"jsonrpc": "2.0", "id": mid, "method": "tools/call", "params": params}, **extras)),
+                    dict({"jsonrpc": "2.0", "id": mid, "method": "tools/call", "params": params}, **extras))
     if shape == "legacy_request":
         return J.JSONRPCMessage.create_request("tools/call", params, id=mid), {"jsonrpc": "2.0", "id": mid, "method": "tools/call", "params": params}
     if shape == "legacy_notification":
@@ -133,7 +151,8 @@ UNSER = ("UNSER",)
 GOOD_SHAPES = ["typed_request", "typed_request_noparams", "typed_notification", "typed_response", "typed_error",
                "legacy_request", "legacy_notification", "legacy_response", "dict", "dict_notification", "str_ascii", "str_utf8",
                "direct_request", "direct_notification", "direct_response", "direct_error", "direct_legacy", "direct_validate",
-               "str_pretty", "str_trailing_newline"]
+               "str_pretty", "str_trailing_newline",
+               "extra_request", "extra_notification", "extra_response", "extra_error", "extra_unified"]
 BAD_SHAPES = ["unser_object", "unser_set", "unser_circular", "unser_bytes", "surrogate_dict", "unser_surrogate_str",
               "unser_deep", "unser_badrepr", "unser_typed_object", "unser_typed_bytes", "unser_typed_legacy_object"]
 IDS = [1, 0, "a", "123", 2**63, "\u00fc"]
